@@ -24,6 +24,7 @@ type question struct {
 	flags         questionFlags
 	finishMsgSend chan struct{}        // closed after attempting to send the Finish message
 	called        [][]capnp.PipelineOp // paths to called clients
+	paramCaps     map[exportID]uint32  // export references placed in the call's params
 }
 
 // questionFlags is a bitmask of which events have occurred in a question's
@@ -144,7 +145,7 @@ func (q *question) PipelineSend(ctx context.Context, transform []capnp.PipelineO
 	q.c.mu.Lock()
 	q.c.unlockSender() // Can't be holding either lock while calling PlaceArgs.
 	q.c.mu.Unlock()
-	err = q.c.newPipelineCallMessage(msg, q.id, transform, q2.id, s)
+	err = q.c.newPipelineCallMessage(msg, q.id, transform, q2, s)
 	if err != nil {
 		q.c.mu.Lock()
 		q.c.questions[q2.id] = nil
@@ -191,7 +192,8 @@ func (q *question) PipelineSend(ctx context.Context, transform []capnp.PipelineO
 // newPipelineCallMessage builds a Call message targeted to a promised answer..
 //
 // The caller MUST NOT be holding onto c.mu or the sender lock.
-func (c *Conn) newPipelineCallMessage(msg rpccp.Message, tgt questionID, transform []capnp.PipelineOp, qid questionID, s capnp.Send) error {
+func (c *Conn) newPipelineCallMessage(msg rpccp.Message, tgt questionID, transform []capnp.PipelineOp, q *question, s capnp.Send) error {
+	qid := q.id
 	call, err := msg.NewCall()
 	if err != nil {
 		return errorf("build call message: %v", err)
@@ -242,8 +244,7 @@ func (c *Conn) newPipelineCallMessage(msg rpccp.Message, tgt questionID, transfo
 	}
 	clients, states := extractCapTable(m)
 	c.mu.Lock()
-	// TODO(soon): save param refs
-	_, err = c.fillPayloadCapTable(payload, clients, states)
+	q.paramCaps, err = c.fillPayloadCapTable(payload, clients, states)
 	c.mu.Unlock()
 	releaseList(clients).release()
 	if err != nil {
